@@ -306,8 +306,9 @@ def conformance(h, ex, seed, k, apply_stubs=True):
                 continue
             m = s.model()
         vals = _values_from_model(m, ex2.symbols)
-        if any(isinstance(v, float) and (v != v or abs(v) > 1e100) for v in vals.values()):
-            continue                      # a model value that does not fit a double (the reals of the encoding are not floats: A-real)
+        if any(isinstance(v, float) and (v != v or abs(v) > 1e8 or 0 < abs(v) < 1e-8) for v in vals.values()):
+            continue                      # model values whose spread exceeds what double arithmetic resolves (1e58 next to 1e-19): the reals of
+                                          # the encoding are not floats (A-real); such a sample says nothing about the engine
         st, nctx = harness.run_native(h, vals, apply_stubs=apply_stubs)
         res["samples"] += 1
         if st == "ok":
